@@ -911,3 +911,98 @@ func callValue(ci ssa.CallInstruction) ssa.Value {
 	}
 	return nil
 }
+
+// ---------------------------------------------------------------------------------------------
+// Ways: path-sensitive facts. WaysTo(b) enumerates the distinct ways control can arrive at b
+// (backwards over predecessor edges, ignoring back edges), each as the set of literals asserted
+// along the way; contradictory ways are dropped. The enumeration is cut off at a dominator after
+// maxDepth steps (then only the dominating facts are used, which is sound: fewer facts).
+
+func (a *FnA) WaysTo(b *ssa.BasicBlock) []Facts {
+	ws := a.ways(b, 10, map[*ssa.BasicBlock]bool{})
+	if len(ws) > 256 {
+		return []Facts{a.FactsAt(b)}
+	}
+	return ws
+}
+
+// WaysOnEdge: ways of arriving at succ through pred.
+func (a *FnA) WaysOnEdge(pred, succ *ssa.BasicBlock) []Facts {
+	var out []Facts
+	n, idx := 0, -1
+	for i, s := range pred.Succs {
+		if s == succ {
+			n++
+			idx = i
+		}
+	}
+	for _, w := range a.WaysTo(pred) {
+		f := Facts{}
+		for k, v := range w {
+			f[k] = v
+		}
+		ok := true
+		if n == 1 {
+			for _, l := range a.edgeLits(pred, idx) {
+				if old, dup := f[l.Atom]; dup && old != l.Pol {
+					ok = false
+				}
+				f[l.Atom] = l.Pol
+			}
+		}
+		if ok {
+			out = append(out, f)
+		}
+	}
+	return out
+}
+
+func (a *FnA) ways(b *ssa.BasicBlock, depth int, onPath map[*ssa.BasicBlock]bool) []Facts {
+	if depth == 0 || len(b.Preds) == 0 {
+		f := Facts{}
+		for k, v := range a.FactsAt(b) {
+			f[k] = v
+		}
+		return []Facts{f}
+	}
+	onPath[b] = true
+	defer delete(onPath, b)
+	var out []Facts
+	for _, p := range b.Preds {
+		if onPath[p] || b.Dominates(p) {
+			continue // back edge
+		}
+		n, idx := 0, -1
+		for i, s := range p.Succs {
+			if s == b {
+				n++
+				idx = i
+			}
+		}
+		for _, w := range a.ways(p, depth-1, onPath) {
+			ok := true
+			if n == 1 {
+				for _, l := range a.edgeLits(p, idx) {
+					if old, dup := w[l.Atom]; dup && old != l.Pol {
+						ok = false
+					}
+					w[l.Atom] = l.Pol
+				}
+			}
+			if ok {
+				out = append(out, w)
+			}
+			if len(out) > 512 {
+				return out
+			}
+		}
+	}
+	if len(out) == 0 {
+		f := Facts{}
+		for k, v := range a.FactsAt(b) {
+			f[k] = v
+		}
+		return []Facts{f}
+	}
+	return out
+}
